@@ -23,7 +23,9 @@ META = {
             "writes is, by a hand-written protobuf wire-format specification, a message carrying exactly its "
             "non-empty members with the payload kinds docs/serialization lists.  Tag shift/mask, varint size "
             "formula, the size==0 skip tests, the length-read failure branch, the pushed limit, the cache/skip order, "
-            "unknown-field skip widths and the vector loop condition are regenerated from the sources on every run.  "
+            "unknown-field skip widths, the vector loop condition and the varint/fixed width every scalar trait (32 bit "
+            "group, 64 bit group, enum, float, double) writes, reads and sizes with are regenerated from the sources on "
+            "every run.  "
             "Tie: ~43 C++ types instantiating the real templates run on random typed values (extremes weighted), "
             "mutated encodings, crafted prefixes and raw bytes through flat array / string / chunked stream +- limit, "
             "in a debug and an NDEBUG+ASan+UBSan build, and must agree with the extracted model on success flag, "
@@ -61,7 +63,11 @@ _CS = "1 b 2 i8 3 i16 4 i32 5 i64 6 u8 7 u16 8 u32 9 u64 16 f32 17 f64 18 en 19 
 _CR = "44 ( vec b ) 47 ( vec i32 ) 48 ( vec i64 ) 51 ( vec u32 ) 52 ( vec u64 ) 59 ( vec f32 ) 60 ( vec f64 ) 61 ( vec en )"
 CSUB = "( agg %s %s )" % (_CS, _CR)
 COBJ = "( agg %s 21 %s %s )" % (_CS, CSUB, _CR)
+ENUMS = ("( agg 1 en8 2 enu8 3 en 4 enu32 5 en64 6 enu64 7 ( vec en64 ) 8 ( arr 2 enu64 ) 9 ( map enu64 en64 ) "
+         "10 ( up en64 ) 11 ( sp enu64 ) 12 ( list enu32 ) )")
 TYPES = {
+    "en8": "en8", "enu8": "enu8", "enu32": "enu32", "en64": "en64", "enu64": "enu64",
+    "ven64": "( vec en64 )", "mapee": "( map enu64 en64 )", "upen64": "( up en64 )", "enums": ENUMS,
     "b": "b", "i8": "i8", "i16": "i16", "i32": "i32", "i64": "i64", "u8": "u8", "u16": "u16", "u32": "u32",
     "u64": "u64", "en": "en", "f32": "f32", "f64": "f64", "str": "str",
     "vi32": "( vec i32 )", "vu64": "( vec u64 )", "vb": "( vec b )", "vf32": "( vec f32 )", "vf64": "( vec f64 )",
@@ -86,10 +92,12 @@ SHAPES = {"withmsg": "( agg 1 ( agg 1 i32 2 str ) 2 i32 3 ( up ( agg 1 i32 2 str
 
 RANGES = {"b": (0, 1), "i8": (-128, 127), "i16": (-2 ** 15, 2 ** 15 - 1), "i32": (-2 ** 31, 2 ** 31 - 1),
           "u8": (0, 255), "u16": (0, 65535), "u32": (0, 2 ** 32 - 1), "i64": (-2 ** 63, 2 ** 63 - 1),
-          "u64": (0, 2 ** 64 - 1), "en": (-2 ** 31, 2 ** 31 - 1), "f32": (0, 2 ** 32 - 1), "f64": (0, 2 ** 64 - 1)}
+          "u64": (0, 2 ** 64 - 1), "en": (-2 ** 31, 2 ** 31 - 1), "en8": (-128, 127), "enu8": (0, 255),
+          "enu32": (0, 2 ** 32 - 1), "en64": (-2 ** 63, 2 ** 63 - 1), "enu64": (0, 2 ** 64 - 1), "f32": (0, 2 ** 32 - 1), "f64": (0, 2 ** 64 - 1)}
 EDGES = [0, 1, -1, 2, 127, 128, 255, 256, 16383, 16384, 2 ** 21 - 1, 2 ** 21, 2 ** 28 - 1, 2 ** 28, 2 ** 31 - 1,
          2 ** 31, 2 ** 32 - 1, 2 ** 32, 2 ** 35 - 1, 2 ** 35, 2 ** 42, 2 ** 49 - 1, 2 ** 56, 2 ** 63 - 1, 2 ** 63,
-         2 ** 64 - 1, -128, -129, -2 ** 15, -2 ** 31, -2 ** 63]
+         2 ** 64 - 1, -128, -129, -2 ** 15, -2 ** 31, -2 ** 63, 1 << 40, 0x80000000, 0xFFFFFFFF00000000,
+         -(1 << 33), -(1 << 31) - 1, (1 << 63) + 1, 0x100000001]
 FLOATS32 = [0, 0x80000000, 0x3f800000, 0x7f800000, 0xff800000, 0x7fc00000, 0x7fa00001, 1, 0xffffffff]
 FLOATS64 = [0, 1 << 63, 0x3ff0000000000000, 0x7ff0000000000000, 0x7ff8000000000000, 0x7ff4000000000001, 1,
             2 ** 64 - 1]
@@ -536,6 +544,28 @@ def main(argv):
                 vcases.append({"id": "v%d" % i, "type": name,
                                "val": show(gen_val(rng, ty, 0, name in ("cobj", "csub")))})
                 i += 1
+        # enums at the extremes of their underlying type, bits 31..63 mixed (not left to the seed)
+        wide = [1 << 31, 1 << 32, 1 << 40, -2 ** 63, 2 ** 63 - 1, 2 ** 64 - 1, -1, 0x80000000, 0xFFFFFFFF00000000,
+                -(1 << 33), 0x100000001, 0, 1, 127, 128, 255, -128, 2 ** 31 - 1, -2 ** 31, 2 ** 32 - 1]
+        wide = sorted(set(wide), key=wide.index)
+        for name in ("en8", "enu8", "en", "enu32", "en64", "enu64"):
+            lo, hi = RANGES[name]
+            for x in wide:
+                if lo <= x <= hi:
+                    vcases.append({"id": "v%d" % i, "type": name, "val": str(x)})
+                    i += 1
+        s64 = [x for x in wide if -2 ** 63 <= x < 2 ** 63]
+        u64 = [x for x in wide if 0 <= x < 2 ** 64]
+        fixed = [("ven64", show(s64)), ("upen64", "P %d" % (1 << 40)), ("upen64", "P %d" % (-2 ** 63)),
+                 ("mapee", show([[u, s64[j % len(s64)]] for j, u in enumerate(u64)])),
+                 ("enums", show([-128, 255, -2 ** 31, 2 ** 32 - 1, -2 ** 63, 2 ** 64 - 1, s64, [1 << 40, 0xFFFFFFFF00000000],
+                                 [[1 << 40, -(1 << 33)], [2 ** 64 - 1, 2 ** 63 - 1]], ("P", 1 << 32), ("P", 1 << 63),
+                                 [0x80000000, 2 ** 32 - 1]])),
+                 ("enums", show([127, 128, 2 ** 31 - 1, 0x80000000, 2 ** 63 - 1, 0x100000001, [], [0, 1 << 31], [],
+                                 None, None, []]))]
+        for name, val in fixed:
+            vcases.append({"id": "v%d" % i, "type": name, "val": val})
+            i += 1
         for j, name in enumerate(["onlystr", "ptrs", "nest", "derived", "auto", "cobj", "arr", "big", "withmsg"] *
                                  (6 if not thorough else 30)):
             ty = tys.get(name) or shapes[name]
